@@ -85,8 +85,31 @@ Record view := {
   v_body : str;
   v_user : str; v_admin : bool; v_auth : bool; v_bearer : bool;   (* v_bearer: a bearer token was presented (session.Token != "") *)
   v_perms : list str;
-  v_authn : N                                  (* req.Authentication: 0 "none", 1 "user", 2 "token" *)
+  v_authn : N;                                 (* req.Authentication: 0 "none", 1 "user", 2 "token" *)
+  v_accjson : bool; v_acctext : bool;          (* the router's reading of Accept: req.IsJSON / req.IsText *)
+  v_wjson : bool; v_wtext : bool               (* the response writer's _json / _text flags: how w.Write formats a value *)
 }.
+
+(* ---- Accept: the router's rule (serve.go) and the literal test both service paths use for the Content-Type *)
+Fixpoint starts_with (p s : str) : bool :=
+  match p, s with
+  | [], _ => true
+  | a :: p', b :: s' => (a =? b) && starts_with p' s'
+  | _, [] => false
+  end.
+Fixpoint contains (needle hay : str) : bool :=
+  starts_with needle hay || match hay with [] => false | _ :: r => contains needle r end.
+Definition lower (s : str) : str := map (fun c => if (65 <=? c) && (c <=? 90) then c + 32 else c) s.
+Definition s_star : str := [42;47;42].            (* "*/*" *)
+Definition s_text : str := [116;101;120;116].
+Definition s_json : str := [106;115;111;110].
+(* (json, text) as Session.AcceptsJSON / AcceptsText; the loop stops at the first value holding "*/*" *)
+Fixpoint router_accepts (vals : list str) (j t : bool) : bool * bool :=
+  match vals with
+  | [] => (j, t)
+  | v :: r => if contains s_star v then (true, true)
+              else router_accepts r (j || contains s_json (lower v)) (t || contains s_text (lower v))
+  end.
 
 (* service.go: authType from session.Authenticated and session.Token *)
 Definition authn_inproc (authenticated token_presented : bool) : N :=
@@ -99,7 +122,9 @@ Definition authn_child (authenticated bearer : bool) : N :=
 Definition inproc_view (q : view) : view :=
   {| v_method := v_method q; v_headers := v_headers q; v_params := v_params q; v_parts := v_parts q; v_body := v_body q;
      v_user := v_user q; v_admin := v_admin q; v_auth := v_auth q; v_bearer := v_bearer q; v_perms := v_perms q;
-     v_authn := authn_inproc (v_auth q) (v_bearer q) |}.
+     v_authn := authn_inproc (v_auth q) (v_bearer q);
+     v_accjson := v_accjson q; v_acctext := v_acctext q;
+     v_wjson := v_accjson q; v_wtext := v_acctext q |}.        (* "_json": session.AcceptsJSON, "_text": session.AcceptsText *)
 
 Definition map_vals {A B} (f : A -> B) (l : list (str * A)) : list (str * B) := map (fun kv => (fst kv, f (snd kv))) l.
 
@@ -113,7 +138,9 @@ Definition child_view (q : view) : view :=
      v_body := json_str (v_body q);
      v_user := json_str (v_user q); v_admin := v_admin q; v_auth := v_auth q; v_bearer := v_bearer q;
      v_perms := map json_str (v_perms q);
-     v_authn := authn_child (v_auth q) (v_bearer q) |}.
+     v_authn := authn_child (v_auth q) (v_bearer q);
+     v_accjson := v_accjson q; v_acctext := v_acctext q;
+     v_wjson := v_accjson q; v_wtext := v_acctext q |}.        (* "_json": r.AcceptsJSON, "_text": r.AcceptsText *)
 
 Definition is_ustr (v : uval) : bool := match v with UStr _ => true | _ => false end.
 Definition strs_valid (l : list str) : bool := forallb utf8_valid l.
@@ -131,6 +158,8 @@ Record wire := { w_status : Z; w_headers : list (str * list str); w_body : str }
 
 Definition ctype : str := [67;111;110;116;101;110;116;45;84;121;112;101].                (* Content-Type *)
 Definition appjson : str := [97;112;112;108;105;99;97;116;105;111;110;47;106;115;111;110].  (* application/json *)
+(* isJSON of service.go / runChildRequest: some Accept value holds the literal "application/json" *)
+Definition literal_json (vals : list str) : bool := existsb (contains appjson) vals.
 Definition wwwauth : str := [87;119;119;45;65;117;116;104;101;110;116;105;99;97;116;101]. (* Www-Authenticate *)
 
 Fixpoint del_key (k : str) (l : list (str * list str)) : list (str * list str) :=
@@ -155,20 +184,25 @@ Fixpoint join_comma (l : list str) : str :=
   match l with [] => [] | [a] => a | a :: r => a ++ [44; 32] ++ join_comma r end.
 
 (* child.go: getHeadersFromResponse joins the values with ", "; the realm header is added for 401;
-   the JSON Content-Type is not sent; strings cross encoding/json; an error status with an empty
+   the JSON Content-Type is sent when the handler set none (see child_wire_f); strings cross encoding/json; an error status with an empty
    body is answered with the server's own error document (not modelled: flagged) *)
 Definition child_headers (o : outcome) : list (str * str) :=
   map (fun kv => (json_str (fst kv), json_str (join_comma (snd kv)))) (o_headers o).
-Definition child_wire (o : outcome) : wire :=
+(* fixd = false: the code before the repair never sent the JSON Content-Type; fixd = true: it is sent
+   unless the handler set a Content-Type itself (keys are taken in canonical form) *)
+Definition child_wire_f (fixd : bool) (o : outcome) : wire :=
+  let h0 := if fixd && o_json o && negb (existsb (fun kv => str_eqb (fst kv) ctype) (child_headers o))
+            then [(ctype, [appjson])] else [] in
   {| w_status := o_status o;
-     w_headers := fold_left (fun h kv => set_vals h (fst kv) [snd kv]) (child_headers o) [];
+     w_headers := fold_left (fun h kv => set_vals h (fst kv) [snd kv]) (child_headers o) h0;
      w_body := json_str (o_body o) |}.
+Definition child_wire := child_wire_f true.
 Definition child_substitutes_error_body (o : outcome) : bool :=
   (400 <=? o_status o)%Z && is_nil_str (json_str (o_body o)).
 
 Definition single (vs : list str) : bool := match vs with [_] => true | _ => false end.
 Definition resp_representable (o : outcome) : bool :=
-  negb (o_json o) && utf8_valid (o_body o)
+  utf8_valid (o_body o)
   && forallb (fun kv => utf8_valid (fst kv) && single (snd kv) && strs_valid (snd kv)) (o_headers o)
   && negb ((400 <=? o_status o)%Z && is_nil_str (o_body o))
   && negb (o_status o =? 401)%Z.
